@@ -11,7 +11,7 @@ mkdir -p $DST
 cp $SRC/patch.diff $SRC/demo.diff $SRC/meta.json $DST/ 2>/dev/null
 DEMO=$(python3 -c "import json;print(json.load(open('$DST/meta.json'))['demo_test'])")
 # normalise the demo command to our scratch worktree
-DEMO=$(echo "$DEMO" | sed "s#/tmp/seed/$P#/tmp/sv#g")
+DEMO=$(echo "$DEMO" | sed "s#/tmp/seed/$P#/tmp/sv#g" | sed -E "s/ +\((or|equivalently|alternatively)[: ][^)]*\) *$//")
 export CARGO_NET_OFFLINE=true
 RES=$DST/confirm.txt
 if [ "$SKIP" != "--skip-confirm" ]; then
